@@ -127,7 +127,8 @@ func renderCtx(seq []ctxTokenR) (doc string, kwLine, parenLine []int) {
 		kwLine = append(kwLine, line)
 		pl := 0
 		if t.close {
-			sb.WriteString(")\n")
+			// a closing parenthesis may carry blanks and a comment on its line (also when it ends a Description text)
+			sb.WriteString([]string{")", ") # end", ")   ", ")\t# c", ")", ") # a #b"}[pos%6] + "\n")
 			line++
 		} else if t.open {
 			sb.WriteString("(\n")
